@@ -304,13 +304,14 @@ CSetChild(n, c, t, v, a) ==
           THEN \* desired value: must be deliverable as a valid set command later
                /\ out' = <<>> /\ jobs' = jobs
                /\ IF /\ c \in DOMAIN nodes[n].desired
+                     /\ v.carr                         \* the wire format can carry it (no ';', no line break)
                      /\ Accept(nodes[n].pfl, [h EXCEPT !.ack = 0], v)
                      /\ Accept(GwVer, [h EXCEPT !.ack = 0], v)
                   THEN /\ nodes' = [nodes EXCEPT ![n].desired[c] = Put(@, t, v.tok)]
                        /\ exc' = "none"
                   ELSE /\ nodes' = nodes /\ exc' = "refused"
           ELSE /\ nodes' = nodes
-               /\ IF Accept(GwVer, h, v)
+               /\ IF v.carr /\ Accept(GwVer, h, v)
                   THEN /\ exc' = "none"
                        /\ IF Flavour = "sync"
                           THEN jobs' = Append(jobs, [k |-> "E", m |-> Cmd(n, c, SET, a, t, v.tok)]) /\ out' = <<>>
